@@ -401,6 +401,7 @@ class Component( ComponentLevel7 ):
 
       saved_connections = []
       saved_loopbacks   = set()
+      stale_consts      = set()
 
       for x in removed_connectables:
         # Clean up all_adjancency at top
@@ -411,6 +412,8 @@ class Component( ComponentLevel7 ):
             if other not in removed_connectables and other not in removed_consts:
               top._dsl.all_adjacency[other].remove( x )
               if isinstance( other, Const ):
+                # _add_component connects the value again through a new Const
+                stale_consts.add( other )
                 other = other._dsl.const
               saved_connections.append( (other, "top"+repr(x)[1:]) ) # other is from outside
 
@@ -442,6 +445,12 @@ class Component( ComponentLevel7 ):
       for y in removed_consts:
         del y._dsl.parent_obj
         top._dsl.all_adjacency.pop( y, None )
+      for y in stale_consts:
+        if not top._dsl.all_adjacency.get( y ):
+          top._dsl.all_adjacency.pop( y, None )
+          if not parent._dsl.adjacency.get( y ):
+            parent._dsl.adjacency.pop( y, None )
+          parent._dsl.consts.discard( y )
 
       # We don't break nets anymore. Instead, we set the flags to true so
       # that the next get_xxx_net will immediately recollect nets.
